@@ -1271,7 +1271,9 @@ func c14PickCfg(r *lib.Rng) string {
 }
 
 // c14GenRollback: savepoint M, later savepoint N, the job is rolled back to M (with or without losing the working
-// storage) and runs on until it has published a checkpoint with id N again; then savepoint N is used.
+// storage) and runs on for N-M more checkpoints; then savepoint N is used. With the working storage lost the
+// restored job reaches id N again; with it kept the ids continue above the job snapshots still in the file store
+// (D49: counter = max(savepoint id, newest local id)).
 func c14GenRollback(r *lib.Rng) lib.Case {
 	n := r.Range(1, 2)
 	mem := lib.Pick(r, []int{250, 100000, 100000})
